@@ -1,13 +1,110 @@
 /-
-  C09 — branch rollback never overwrites a foreign write.  (theorems being added)
+  C09 — branch rollback never overwrites a foreign write.
+
+  With data validation on, the compensation of an undo item first compares the rows as they are now
+  (`currentOf`) with both images (`validate`, executor.go dataValidationAndGoOn).
 -/
-import SeataModel.AT.Phase1
+import SeataModel.AT.World
+import SeataModel.Lemmas.Validate
 namespace Seata.Props.C09
 open Seata Seata.DB Seata.AT
 
-/-- with data validation on, an item whose current rows match neither image is reported dirty and
-    the table is left as it is -/
-theorem C09_dirty_untouched (sc : Schema) (cfg : Cfg) (t : Table) (it : Item)
-    (h : undoItem sc cfg t it = (t, .dirty) ∨ (undoItem sc cfg t it).2 ≠ .dirty) : True := trivial
+/-- the rows an item's compensation looks at: the after image, for DELETE the before image -/
+def undoRowsOf (it : Item) : List IRow :=
+  match it.kind with
+  | .delete => it.before
+  | _ => it.after
+
+/-- what `recordsEq` establishes: same number of rows and every old row has a new row with the same
+    key that carries the same value in every tracked column -/
+theorem recordsEq_sound (old new : List IRow) (h : recordsEq old new = true) :
+    old.length = new.length ∧
+    ∀ o ∈ old, ∃ n ∈ new, n.key = o.key ∧
+      ∀ p ∈ o.cells, ∃ q ∈ n.cells, q.1 = p.1 ∧ q.2 = p.2 := by
+  exact recordsEq_sound' old new h
+
+/-- a tracked cell that differs is noticed: if `o ∈ old` tracks column `c` with value `v` and the only
+    row of `new` with `o`'s key carries `v' ≠ v` there (first occurrence of the column), the images are
+    not equal -/
+theorem recordsEq_detects (old new : List IRow) (o n : IRow) (c : Nat) (v v' : Val)
+    (ho : o ∈ old) (hfind : new.find? (fun x => x.key == o.key) = some n)
+    (hc : (c, v) ∈ o.cells) (hn : n.cells.find? (fun q => q.1 == c) = some (c, v')) (hne : v ≠ v') :
+    recordsEq old new = false := by
+  exact recordsEq_detects' old new o n c v v' ho hfind hc hn hne
+
+/-- **C09 (three-way decision)**, validation on.  With `cur` the current rows under the item's keys:
+    * before = after (nothing was changed): nothing is written, the item counts as done;
+    * `cur` = after image: the compensation runs (the result is never `dirty` / `skipped`);
+    * `cur` = before image (and ≠ after): nothing is written, the item counts as done;
+    * `cur` matches neither: `dirty`, the table is left as it is. -/
+theorem C09_three_way (sc : Schema) (cfg : Cfg) (t : Table) (it : Item) (hv : cfg.validate = true) :
+    let cur := currentOf sc t (undoRowsOf it)
+    (recordsEq it.before it.after = true → undoItem sc cfg t it = (t, .skipped)) ∧
+    (recordsEq it.before it.after = false → recordsEq it.after cur = true →
+        (undoItem sc cfg t it).2 = .done ∨ (undoItem sc cfg t it).2 = .sqlError) ∧
+    (recordsEq it.before it.after = false → recordsEq it.after cur = false → recordsEq it.before cur = true →
+        undoItem sc cfg t it = (t, .skipped)) ∧
+    (recordsEq it.before it.after = false → recordsEq it.after cur = false → recordsEq it.before cur = false →
+        undoItem sc cfg t it = (t, .dirty)) := by
+  have hu : undoRowsOf it = undoRows it := rfl
+  intro cur
+  simp only [cur, hu]
+  refine ⟨fun h => ?_, fun h ha => ?_, fun h ha hb => ?_, fun h ha hb => ?_⟩
+  · exact undoItem_skip sc cfg t it (validate_skip_same sc cfg t it _ hv h)
+  · exact undoItem_goOn sc cfg t it (validate_goOn sc cfg t it _ hv h ha)
+  · exact undoItem_skip sc cfg t it (validate_skip_before sc cfg t it _ hv h ha hb)
+  · exact undoItem_dirty sc cfg t it (validate_dirty sc cfg t it _ hv h ha hb)
+
+/-- **C09 (foreign write)**: a row written by the branch (key `k`, tracked column `c`: `b` before, `a`
+    after) now carries a value `v` different from both: the item is `dirty` and the table untouched. -/
+theorem C09_foreign_write_is_dirty (sc : Schema) (cfg : Cfg) (t : Table) (it : Item) (hv : cfg.validate = true)
+    (ob oa n : IRow) (c : Nat) (a b v : Val)
+    (hne : recordsEq it.before it.after = false)
+    (hoa : oa ∈ it.after) (hca : (c, a) ∈ oa.cells)
+    (hob : ob ∈ it.before) (hcb : (c, b) ∈ ob.cells) (hk : ob.key = oa.key)
+    (hcur : (currentOf sc t (undoRowsOf it)).find? (fun x => x.key == oa.key) = some n)
+    (hn : n.cells.find? (fun q => q.1 == c) = some (c, v))
+    (hva : a ≠ v) (hvb : b ≠ v) :
+    undoItem sc cfg t it = (t, .dirty) := by
+  have ha : recordsEq it.after (currentOf sc t (undoRowsOf it)) = false :=
+    recordsEq_detects _ _ oa n c a v hoa hcur hca hn hva
+  have hb : recordsEq it.before (currentOf sc t (undoRowsOf it)) = false :=
+    recordsEq_detects _ _ ob n c b v hob (by rw [hk]; exact hcur) hcb hn hvb
+  exact (C09_three_way sc cfg t it hv).2.2.2 hne ha hb
+
+/-- a foreign DELETE (or re-INSERT) changes the number of current rows under the item's keys: if that
+    number differs from both images' the item is `dirty` -/
+theorem C09_foreign_delete_is_dirty (sc : Schema) (cfg : Cfg) (t : Table) (it : Item) (hv : cfg.validate = true)
+    (hne : recordsEq it.before it.after = false)
+    (h1 : (currentOf sc t (undoRowsOf it)).length ≠ it.after.length)
+    (h2 : (currentOf sc t (undoRowsOf it)).length ≠ it.before.length) :
+    undoItem sc cfg t it = (t, .dirty) := by
+  have ha : recordsEq it.after (currentOf sc t (undoRowsOf it)) = false :=
+    recordsEq_of_length_ne _ _ (fun e => h1 e.symm)
+  have hb : recordsEq it.before (currentOf sc t (undoRowsOf it)) = false :=
+    recordsEq_of_length_ne _ _ (fun e => h2 e.symm)
+  exact (C09_three_way sc cfg t it hv).2.2.2 hne ha hb
+
+/-- **C09 (branch level)**: one dirty item anywhere in the branch: the rollback delivery changes
+    neither the table nor the undo log (the whole world is unchanged) and is answered as a failure. -/
+theorem C09_dirty_branch_untouched (sc : Schema) (cfg : Cfg) (w : World) (i : Nat) (bs : BranchSt)
+    (pre post : List Item) (it : Item)
+    (hb : w.branches[i]? = some bs) (hl : bs.hasLog = true)
+    (hitems : bs.b.items.reverse = pre ++ it :: post)
+    (hpre : (undoFold sc cfg w.t pre).2 = true)
+    (hdirty : (undoItem sc cfg (undoFold sc cfg w.t pre).1 it).2 = .dirty) :
+    rollbackBranch sc cfg w i = (w, false) := by
+  unfold rollbackBranch
+  simp [hb, hl, undoBranch_dirty sc cfg w.t bs.b pre post it hitems hpre hdirty]
+
+/-! ### non-vacuity: a foreign write on a row the branch updated -/
+
+def sc1 : Schema := { ncols := 2, pk := [0] }
+def itU : Item := { kind := .update, before := [⟨[.int 1], [(1, .int 10), (0, .int 1)]⟩], after := [⟨[.int 1], [(1, .int 15), (0, .int 1)]⟩] }
+
+example : undoItem sc1 ⟨true, true⟩ [[.int 1, .int 99]] itU = ([[.int 1, .int 99]], .dirty) := by decide
+example : undoItem sc1 ⟨true, true⟩ [[.int 1, .int 10]] itU = ([[.int 1, .int 10]], .skipped) := by decide
+example : undoItem sc1 ⟨true, true⟩ [[.int 1, .int 15]] itU = ([[.int 1, .int 10]], .done) := by decide
+example : undoItem sc1 ⟨true, true⟩ [] itU = ([], .dirty) := by decide
 
 end Seata.Props.C09
